@@ -162,6 +162,10 @@ pub fn replay(r: &Value) -> Result<String, (String, String)> {
             let mut rng = Rng::keyed(r["seed"].as_u64().unwrap_or(1), "C12/history", r["index"].as_u64().unwrap_or(0));
             c12_history(&mut rng, r["size"].as_u64().unwrap_or(1) as usize, 1100, &mut Default::default()).map(|_| "history deterministic".to_string())
         }
+        "eventfan" => {
+            let mut rng = Rng::keyed(r["seed"].as_u64().unwrap_or(1), "C15/segpair", r["index"].as_u64().unwrap_or(0));
+            crate::sweepmon::check_event_fan(&mut rng, &mut Default::default()).map(|_| "fan ordered consistently".to_string()).map_err(|m| ("ordering:fan".to_string(), m))
+        }
         "segpair" => {
             let mut rng = Rng::keyed(r["seed"].as_u64().unwrap_or(1), "C15/segpair", r["index"].as_u64().unwrap_or(0));
             crate::sweepmon::check_segment_pair(&mut rng, &mut Default::default()).map(|_| "pair ordered consistently".to_string()).map_err(|m| ("ordering:pair".to_string(), m))
